@@ -74,6 +74,10 @@ func (w *World) c14States() (names []string, build []func(ctx sdk.Context)) {
 		func(ctx sdk.Context) {
 			w.Apply(ctx, w.OpDeposit(w.Orb, denomUSDC, 5))
 			w.Apply(ctx, w.OpDeposit(w.Orb, denomIGP, 5000))
+			// coins sent straight to a channel's escrow address (anybody can): the escrow then holds more than ICS-20's
+			// total-escrow bookkeeping knows, and a counterparty returning that denomination makes ibc-go v8.6.1 PANIC
+			// ("negative coin amount") inside the wrapped application — below the orbiter's receive path (hunt H15, seed C14h)
+			w.Apply(ctx, w.OpDeposit(w.Escrow1, denomIGP, 7))
 			w.Apply(ctx, w.OpUpdateParams(4294967295))
 			w.Apply(ctx, OpEnv("seed-stats-int64"))
 			w.Apply(ctx, w.OpRecv("t", TransferSpec{"channel-1", denomUSDC, "777", w.Orb.String(), w.FwdHyp(1), nil}.Pkt()))
@@ -89,9 +93,9 @@ func (w *World) c14PacketLevel() []Pkt {
 	base := NewPkt("channel-1", denomUSDC, "1000", orb, memo)
 	denoms := []string{"", "u", "transfer/channel-9/", "transfer/channel-9/x", "transfer/channel-9/1abc", "transfer/channel-9/uusdc", "transfer/channel-9/transfer/channel-3/uatom",
 		"ibc/27394FB092D2ECCD56123C74F36E4C1F926001CEADA9CA97EA622B25F41E5EB2", "transfer/channel-9/ibc/27394FB092D2ECCD56123C74F36E4C1F926001CEADA9CA97EA622B25F41E5EB2",
-		"transfer/channel-9/" + strings.Repeat("a", 129), "///", "transfer/channel-9//", "transfer/channel-9/u u", "transfer/channel-9/UUSDC", "transfer/channel-9/a-b.c_d:e", "transfer/channel-9/\x00"}
+		"transfer/channel-9/" + denomIGP, "transfer/channel-9/" + strings.Repeat("a", 129), "///", "transfer/channel-9//", "transfer/channel-9/u u", "transfer/channel-9/UUSDC", "transfer/channel-9/a-b.c_d:e", "transfer/channel-9/\x00"}
 	wide := []string{strings.Repeat("１", 400), strings.Repeat("\U0001F600", 300), "1" + strings.Repeat("\u0301", 700), strings.Repeat("9", 3000)}
-	amounts := append([]string{"", "0", "-5", "+5", "0x10", "1_0", "1e3", maxUint256Str, twoTo256, " 1", "abc", "-0", "00", "1.0", "٣"}, wide...)
+	amounts := append([]string{"", "0", "5", "-5", "+5", "0x10", "1_0", "1e3", maxUint256Str, twoTo256, " 1", "abc", "-0", "00", "1.0", "٣"}, wide...)
 	var rcvs []string
 	for _, e := range encodingsOf(w.Orb) {
 		rcvs = append(rcvs, e.S)
@@ -339,8 +343,10 @@ func checkC14(tier string) *Report {
 				return mustJSON(map[string]any{"state": stateNames[si], "ops": []Op{{Label: trunc(in.label, 200), Pkt: &pkt}}, "expect": []replayExpect{{Kind: "no_panic", Want: true}}})
 			}
 			switch {
-			case r.Panic != "" && func() bool {
-				// third-party: the orbiter-free reference stack panics at the same site on the same packet
+			case r.Panic != "" && !orbAddr && func() bool {
+				// third-party: the orbiter-free reference stack panics at the same site on the same packet — for traffic that is NOT
+				// addressed to the orbiter (C07: as if the middleware were absent). A packet addressed to the orbiter account is the
+				// orbiter's to answer: a panic of the wrapped application below it must come back as an acknowledgement (seed C14h)
 				rr := RecvOn(w.Ref, Branch(ws[w].ctxs[si]), in.pkt)
 				return rr.Panic != "" && panicSite(rr.Panic) == panicSite(r.Panic)
 			}():
